@@ -788,10 +788,19 @@ package router
 //@   ensures [C18:no-socket-left-open] nLClose == 1 && nUcClose == 1
 // close runs closeImpl at most once (sync.Once); closeImpl calls every registered closer
 //@ func (r *router) close(err error)
-//@   trusted
+//@   props C18
 //@   requires [C18:no-nil-closer] r != nil && closersOK(r)
 //@   requires [C18:closeable-at-every-stage] r.cancel != nil && r.limiter != nil && upstreamsOK(r)
 //@   modifies *
+//@ closure router.close$1
+//@   props C18
+//@   requires [C18:no-nil-closer] r != nil && closersOK(r)
+//@   requires [C18:closeable-at-every-stage] r.cancel != nil && r.limiter != nil && upstreamsOK(r)
+//@   ghost nC int = 0
+//@   oncall closeImpl: nC = nC + 1
+//@   modifies *
+//@   ensures [C18:everything-is-closed-by-the-one-close] nC == 1
+//@   callsite closeImpl: arg0 == r && arg1 == err
 
 //@ spec func ruleAsConfigured(r *router, ru *rule, reverse bool, domain string, reject uint16, forward string) bool = ru != nil && ru.reject == reject
 //@        && (len(domain) > 0 ? ru.matcher == r.domainSets[domain] && ru.reverse == reverse : ru.matcher == nil && !ru.reverse)
@@ -1335,6 +1344,21 @@ package router
 //@   modifies *
 //@   callsite handleStream: [C15:the-admitted-stream-for-the-charged-client] arg0 == s && arg1 == stream && arg2 == c && arg3 == remoteAddr && arg4 == localAddr
 
+//@ func (s *tcpServer) Close() (err error)
+//@   props C18
+//@   requires s != nil && s.l != nil
+//@   modifies *
+//@   ensures err == nil
+//@ func (s *quicServer) Close() (err error)
+//@   props C18
+//@   requires s != nil && s.l != nil
+//@   modifies *
+//@   ensures err == nil
+//@ func (s *udpServer) Close() (err error)
+//@   props C18
+//@   requires s != nil && forall(k, 0, len(s.cs), s.cs[k] != nil && s.cs[k].c != nil)
+//@   modifies *
+//@   ensures err == nil
 // Closing a listener: the "closed" flag is set BEFORE the socket is closed, so that the accept/read loop that is
 // woken by the close reports an orderly shutdown (errServerClosed) and not a fatal error; every socket the
 // listener owns is closed.
